@@ -235,6 +235,7 @@ type factsOut struct {
 	fields    map[string][]string // pkg \t type -> field names
 	methods   []*methodFacts
 	initOnly  map[string]bool // pkg \t func
+	nondet    map[string]bool // pkg \t func \t construct   (sources of run-to-run variation)
 	refs      map[string]bool // callee-pkg \t callee \t caller-pkg \t caller   (any reference, all packages)
 	unsafeUse map[string]bool // pkg \t import      (unsafe / reflect / C / sync/atomic ... listed)
 }
@@ -413,6 +414,85 @@ func (p *Pkg) analysePkgVars(fn string, node ast.Node, out *factsOut) {
 			out.extWrites[p.Dir+"\t"+t+"\t"+fn+"\tassign"] = true
 		}
 	}
+	// `q := &v[...]` where the local q is afterwards only dereferenced for loads (q.f in a
+	// non-store position; compared; never stored through, re-bound, passed on or returned):
+	// the address is used read-only.
+	readOnlyPtr := map[*ast.UnaryExpr]bool{}
+	ast.Inspect(node, func(n ast.Node) bool {
+		as, ok := n.(*ast.AssignStmt)
+		if !ok || as.Tok != token.DEFINE || len(as.Lhs) != 1 || len(as.Rhs) != 1 {
+			return true
+		}
+		u, ok := as.Rhs[0].(*ast.UnaryExpr)
+		if !ok || u.Op != token.AND {
+			return true
+		}
+		qid, ok := as.Lhs[0].(*ast.Ident)
+		if !ok {
+			return true
+		}
+		q := p.Info.Defs[qid]
+		if q == nil {
+			return true
+		}
+		okAll := true
+		// collect parents to classify each use of q
+		var stack []ast.Node
+		ast.Inspect(node, func(m ast.Node) bool {
+			if m == nil {
+				stack = stack[:len(stack)-1]
+				return true
+			}
+			stack = append(stack, m)
+			id, isId := m.(*ast.Ident)
+			if !isId || p.Info.Uses[id] != q {
+				return true
+			}
+			// parent must be a selector q.f ...
+			if len(stack) < 2 {
+				okAll = false
+				return true
+			}
+			sel, isSel := stack[len(stack)-2].(*ast.SelectorExpr)
+			if !isSel || sel.X != m {
+				okAll = false
+				return true
+			}
+			// ... and that selector chain must not be (part of) an assignment target, ++/--, or &operand
+			var child ast.Node = sel
+			for i := len(stack) - 3; i >= 0; i-- {
+				par := stack[i]
+				switch y := par.(type) {
+				case *ast.SelectorExpr, *ast.IndexExpr, *ast.ParenExpr, *ast.SliceExpr, *ast.StarExpr:
+					child = par
+					continue
+				case *ast.AssignStmt:
+					for _, l := range y.Lhs {
+						if l == child {
+							okAll = false
+						}
+					}
+				case *ast.IncDecStmt:
+					okAll = false
+				case *ast.UnaryExpr:
+					if y.Op == token.AND {
+						okAll = false
+					}
+				case *ast.CallExpr:
+					// q.f passed by value is a load; a method call q.M() could store
+					if y.Fun == child {
+						okAll = false
+					}
+				}
+				break
+			}
+			return true
+		})
+		if okAll {
+			readOnlyPtr[u] = true
+		}
+		return true
+	})
 	ast.Inspect(node, func(n ast.Node) bool {
 		switch x := n.(type) {
 		case *ast.AssignStmt:
@@ -445,11 +525,26 @@ func (p *Pkg) analysePkgVars(fn string, node ast.Node, out *factsOut) {
 					}
 				}
 			}
+			if tv, ok := p.Info.Types[x.X]; ok && tv.Type != nil {
+				if _, isMap := tv.Type.Underlying().(*types.Map); isMap {
+					out.nondet[p.Dir+"\t"+fn+"\trange-over-map"] = true
+				}
+			} else {
+				out.nondet[p.Dir+"\t"+fn+"\trange-over-unknown-type"] = true
+			}
+		case *ast.GoStmt:
+			out.nondet[p.Dir+"\t"+fn+"\tgo-statement"] = true
+		case *ast.SelectStmt:
+			out.nondet[p.Dir+"\t"+fn+"\tselect"] = true
 		case *ast.UnaryExpr:
 			if x.Op == token.AND {
 				id, _ := rootIdent(x.X)
 				if v, ok := p.isPkgVar(id); ok {
-					addW(v, "addr")
+					if readOnlyPtr[x] {
+						addW(v, "addr_ro")
+					} else {
+						addW(v, "addr")
+					}
 				} else if t, ok := p.extTarget(x.X); ok {
 					out.extWrites[p.Dir+"\t"+t+"\t"+fn+"\taddr"] = true
 				}
@@ -1719,7 +1814,7 @@ func genFacts() error {
 		return err
 	}
 	out := &factsOut{varWrites: map[string]bool{}, varEsc: map[string]bool{}, extWrites: map[string]bool{},
-		tracked: map[string]bool{}, fields: map[string][]string{}, initOnly: map[string]bool{}, unsafeUse: map[string]bool{}, refs: map[string]bool{}}
+		tracked: map[string]bool{}, fields: map[string][]string{}, initOnly: map[string]bool{}, unsafeUse: map[string]bool{}, refs: map[string]bool{}, nondet: map[string]bool{}}
 	var scanned []string
 	nfiles := 0
 	for _, dir := range dirs {
@@ -1805,7 +1900,7 @@ func genFacts() error {
 	writeTuples(&sb, out.vars, 3)
 	sb.WriteString("].\n\n")
 
-	sb.WriteString("(* (package, variable, function, kind): kind = assign | compound | incdec | elem | append | addr | ptrrecv:<m> *)\n")
+	sb.WriteString("(* (package, variable, function, kind): kind = assign | compound | incdec | elem | append | addr | addr_ro | ptrrecv:<m>\n   (addr_ro: `q := &v[..]` whose q is only ever dereferenced for loads) *)\n")
 	sb.WriteString("Definition pkg_var_writes : list (string * string * string * string) := [\n")
 	writeTuples(&sb, sortedKeys(out.varWrites), 4)
 	sb.WriteString("].\n\n")
@@ -1818,6 +1913,11 @@ func genFacts() error {
 	sb.WriteString("(* (package, imported variable, function, kind): writes to a variable of ANOTHER package *)\n")
 	sb.WriteString("Definition pkg_ext_writes : list (string * string * string * string) := [\n")
 	writeTuples(&sb, sortedKeys(out.extWrites), 4)
+	sb.WriteString("].\n\n")
+
+	sb.WriteString("(* (package, function, construct): constructs whose behaviour may vary from run to run *)\n")
+	sb.WriteString("Definition nondet_sites : list (string * string * string) := [\n")
+	writeTuples(&sb, sortedKeys(out.nondet), 3)
 	sb.WriteString("].\n\n")
 
 	sb.WriteString("(* (package, function): reachable from init / package-level initialisers and from nothing else *)\n")
